@@ -7,19 +7,19 @@ props = [json.loads(l) for l in open(os.path.join(HERE, 'properties.jsonl'))]
 CLAIMED = {
     'C01': dict(design='§6 C01', technique='Lean 4 proof (invariant over all reachable queue states, any PAlg) + trace validation of PcfgQueue',
                 text='Theorems over the Lean model of find_children/_are_you_my_child/_find_prob/PcfgQueue.next for every well-formed grid, every heap tie-breaking and every prefix; decision fragments regenerated from the source on each run; every pop of the real queue validated against the model.',
-                note='IEEE monotone rounding and heapq trusted; loader behaviour covered by C07/C14 models'),
+                note='binary64: PAlg laws proved for the model SF (monotone correctly rounded product; C01_order_binary64), CPython float = SF compared bit for bit each run; heapq trusted; trainer-written lists load into well-formed columns (C07_trained_column_wf)'),
     'C02': dict(design='§6 C02', technique='Lean 4 proof (order-independent adoption invariant by induction over pops) + trace validation incl. heap contents',
                 text='Exactly-once/none-skipped proved for every well-formed grid and every intermediate state via the adoption-system invariant; real heap compared with the model multiset after every pop.',
-                note='same trusted base as C01'),
+                note='same trusted base as C01; C02_exactly_once_binary64 (doubles, no float hypothesis), C02_language (multiset of expansions); base structures compared with an independent tokenisation of grammar.txt'),
     'C04': dict(design='§6 C04', technique='Lean 4 proof (recGuesses = product of groups, structural induction) + exact output diff of create_guesses',
                 text='The model of _recursive_guesses is proved equal to the product-of-groups specification with count = lines; limit fragments regenerated from source; real create_guesses output compared line by line.',
                 note='str.upper per character is a parameter; OMEN level content is C10'),
     'C07': dict(design='§6 C07', technique='Lean 4 proof (writer/loader round trip over code-point strings) + generated check_valid table + exhaustive Unicode table validation + real writer/3 loaders',
-                text='Round-trip theorems for the guesser and scorer loaders over every clean value; key lemma decided over the rejected-code-point table extracted from check_valid; line-boundary/whitespace tables validated against the interpreter over all code points each run.',
+                text='Round-trip theorems for the guesser and scorer loaders over every clean value; key lemma decided over the rejected-code-point table extracted from check_valid; line-boundary/whitespace tables validated against the interpreter over all code points each run. A sorted clean list file loads into a well-formed column (C07_trained_column_wf: trainer -> file -> guesser over binary64); a saved folder holds exactly the files the config lists, for every previous content (C07_folder_is_filename_list), and each config section takes its list from the counter the writer saves there (C07_config_sources, generated from config_file.py / save_pcfg_data.py).',
                 note='codec internals, float repr round trip, configparser/json are runtime'),
     'C08': dict(design='§6 C08', technique='Lean 4 proof (restore walk = roots of the sub-system of nodes ≤ saved probability) + trace validation from every cut point',
                 text='Resume emits exactly the nodes of probability ≤ the saved value, once each, in order; nothing lost, repeats only tied; proved for all grids / cut values / tie patterns; real restore compared with the model at cut points.',
-                note='session file I/O (configparser float round-trip) trusted; multi-cycle histories reduce to the single saved float'),
+                note='C08_resume_binary64 for doubles (saved minimum 0.0 discharged); session file I/O (configparser float round-trip) trusted; multi-cycle histories reduce to the single saved float'),
     'C09': dict(design='§6 C09', technique='Lean 4 proof (limit = take n, across pre-terminal, mask loop, Markov level, session loop) + generated print-site table (decide) + subprocess stdout diff',
                 text='Static: every output call site regenerated from source, only print_guess may reach stdout (decide). Dynamic: limit theorems for all N; CLI stdout compared byte for byte.',
                 note='OS pipe behaviour; AST scan finds print/sys.stdout.write/traceback sites only'),
@@ -31,10 +31,10 @@ CLAIMED = {
                 note='C14_order_preserved: over exact rationals rescaling preserves every comparison, so with C01/C02 the skip_brute stream is the default stream without Markov pre-terminals; over doubles up to rounding of the rescaling (checked exactly where 1-P(M) is a power of two)'),
     'C16': dict(design='§6 C16', technique='Lean 4 proof (pick = interval characterisation for every draw; membership; count) + scripted-draw correspondence at every breakpoint ±1 ulp',
                 text='Draws are universally quantified model inputs; selected index iff draw in (S_{j-1}, S_j]; every word in the product of the selected groups; exactly N words.',
-                note='measure = interval length on paper; Mersenne Twister determinism trusted'),
+                note='C16_uniform_count: with integer weights exactly ws[j] of the sum(ws) equally spaced draws select index j (counting measure; replaces the on-paper step); Mersenne Twister determinism trusted'),
     'C17': dict(design='§6 C17', technique='Lean 4 proof (princeLoop size = take N; C01/C02 on the Prince grid) + subprocess diff for every N inside tie groups',
                 text='--size theorem for all N and pop sequences; order/each-once from the PQ theorems; stdout vs -o file vs in-process stream.',
-                note='same trusted base as C01/C04/C09'),
+                note='same trusted base as C01/C04/C09; C17_binary64 instance'),
     'C03': dict(design='§6 C03', technique='Lean 4 proof (case insertion + product-of-groups language: every training parse is a derivation; emitted mass = 1 over Rat) + real train→guess runs with an independent reparse oracle',
                 text='Theorems: the loader gives every alpha slot its capitalisation slot (all positions, any structure); the password of a training parse is in the product specification of its pre-terminal; every pre-terminal is emitted (C02); mass over Rat sums to 1. Real trainer + real guesser on generated lists: every supported training password appears, probability mass equals 1 up to rounding.',
                 note='which parse the trainer chooses is C05; float mass compared with tolerance; multiword detector threshold is runtime data'),
@@ -46,7 +46,7 @@ CLAIMED = {
                 note='exact arithmetic in the theorem; over doubles the two products differ by rounding (harness tolerance 1e-12 relative); OMEN level scoring is C11; the scorer\'s own multi-word table is data (any table, universally quantified)'),
     'C06': dict(design='§6 C06', technique='Lean 4 proof (calcProbs: permutation, count/total, stable sort, sum = 1 over Rat, Markov share) + bit-exact correspondence + file-by-file recomputation',
                 text='Theorems for every counter; real calculate_probabilities compared bit for bit; every list file of real trainings equals the independently recomputed relative-frequency list of the real parser counters; determinism across hash seeds.',
-                note='float sums differ from 1 by rounding only; which items reach which counter is C05'),
+                note='C06_sorted_binary64: the written doubles are non-increasing in file order (correctly rounded count/total is monotone in the count; model SF.ratio compared bit for bit with CPython int/int and float/float each run); float sums differ from 1 by rounding only; which items reach which counter is C05; re-training over an existing rule directory exercised'),
     'C12': dict(design='§6 C12, App. B', technique='Lean 4 proof (two-actor state machine, induction over all schedules and stdin scripts) + real two-thread runs under a scripted baton + 8 real stdin kinds (incl. pseudo-terminal)',
                 text='For every schedule and stdin script: output is a prefix of the stream; complete unless q was read; exit only after q, saved, at a boundary. Quit-test source generated from the code. Real CrackingSession/keypress driven deterministically and compared with the model.',
                 note='OS scheduling and input() per stdin kind observed, not proved; GIL atomicity trusted'),
@@ -63,7 +63,7 @@ CLAIMED = {
                 text='Theorems for all lines / passwords / counts with int(), hex-decode and encode as parameters; real read_password sequences compared with the model; rulesets trained from the three encodings compared file by file.',
                 note='codec internals and int() are runtime parameters'),
     'C20': dict(design='§6 C20, §11.4', technique='Lean 4 proof (three filters = List.filter on rows, tokens = labels; the length promise: every guess of a kept structure within the bounds, a removed structure has a guess outside) + exact text diff of edit_rules + directory hashes + every guess of edited complete rulesets produced by the real guesser',
-                text='Filter theorems for all well-formed grammar files, options and context-value lengths; C20_guess_lengths / C20_only_failing_removed relate the (shortest, longest) label arithmetic to the guess lengths; real edit_rules output compared byte for byte with the model; other files hashed; real guesses before and after editing checked against the bounds.',
+                text='Filter theorems for all well-formed grammar files, options and context-value lengths; C20_guess_lengths / C20_only_failing_removed relate the (shortest, longest) label arithmetic to the guess lengths; real edit_rules output compared byte for byte with the model; other files hashed; real guesses before and after editing checked against the bounds. C20_only_grammar_written: the table of every file-system mutation in edit_rules.py is regenerated from the source each run - one copytree and one write-open of Grammar/grammar.txt, re-bound to the copy under --copy (decide).',
                 note='user regex abstract; letters whose upper-casing is longer than one character (ß → SS) under a U mask are a recorded known finding (C20_case_expansion_witness)'),
 }
 NOT_YET = 'check not built yet in this round (machinery under construction); see DESIGN.md §6'
